@@ -66,6 +66,7 @@ struct SimFile {
     if (size > 1) n -= n % size;
     if (n) memcpy(ptr, bytes->data() + pos, n);
     pos += (int64_t)n; errno = 0;
+    { static const bool trace = getenv("VERIF_TRACE_IO") != nullptr; if (trace) fprintf(stderr, "IO read want=%zu got=%zu -> pos %lld\n", want, n, (long long)pos); }
     log.u64(1); log.u64(n); log.i64(pos);
     return size ? n / size : 0;
   }
@@ -80,6 +81,7 @@ struct SimFile {
     int64_t np = base + off;
     if (np < 0) { log.u64(0x5E1); return -1; }
     pos = np; log.u64(2); log.i64(pos);
+    static const bool trace = getenv("VERIF_TRACE_IO") != nullptr; if (trace) fprintf(stderr, "IO seek %lld whence=%d -> %lld\n", (long long)off, whence, (long long)pos);
     return 0;
   }
   long do_tell() {
